@@ -112,6 +112,15 @@ class Ctx:
         os.makedirs(os.path.join(OUT, "evidence"), exist_ok=True)
         with open(os.path.join(OUT, "evidence", f"{self.pid}.json"), "w") as f:
             json.dump(ev, f, indent=1, default=str)
+        # compact per-tier ledger (kept next to the evidence so that a quick run does not erase what thorough covered)
+        os.makedirs(os.path.join(OUT, "runs"), exist_ok=True)
+        with open(os.path.join(OUT, "runs", f"{self.pid}.{self.tier}.json"), "w") as f:
+            json.dump({"property_id": self.pid, "tier": self.tier, "seed": self.seed, "wall_s": ev["wall_s"],
+                       "states": st.states, "transitions": st.transitions, "executions": st.executions,
+                       "evaluations": cov["evaluations"], "distinct_nontrivial": st.nontrivial,
+                       "distinct_outcomes": len(st.outcomes), "exhaustive": bool(self.exhaustive), "caps_hit": st.caps,
+                       "bounds": self.bounds, "known_findings_seen": len(cov["known_findings_seen"]),
+                       "new_violations": len(new)}, f, indent=1, default=str)
         print(f"[{self.pid}] tier={self.tier} seed={self.seed} states={st.states} transitions={st.transitions} "
               f"executions={st.executions} nontrivial={st.nontrivial} outcomes={len(st.outcomes)} "
               f"known={len(cov['known_findings_seen'])} new={len(new)} exhaustive={self.exhaustive} "
